@@ -4,86 +4,237 @@ import RsMatterVerif.Model.Tlv
 
 What `rs-matter-macros/src/tlv.rs` generates for a struct with named fields:
 `to_tlv` = `start_<datatype>(tag)`, every field in declaration order with the context tag
-`start + index` (or its `#[tagval]`), `end_container`; `Option::None` writes nothing, `Nullable`
-null writes a TLV null, integers use the shortest width (`TLVWrite::u16/u32/u64`).
+`start + index` (or its `#[tagval]`) through the field type's `ToTLV`, `end_container`;
 `from_tlv` = `element.<datatype>()?`, then per field `T::from_tlv(&seq.find_ctx(tag)?)`.
-A `Schema` is that layout as data; which schema a given `derive` expands to is **not** proved —
-it is checked by correspondence on the fixed list of real structures in `named`.
+The field types are the `FromTLV`/`ToTLV` impls of `tlv/traits/*.rs`:
+
+* `uN` (`primitive.rs`): `tw.uN` (shortest width, `u8` always one byte) / `element.uN()`;
+  `NonZeroUN` (`Invalid` on 0), unit enums derived with `datatype = "u8"/"u16"` and the hand-written
+  `FromPrimitive` enums (`Invalid` on an unknown value), `bitflags_tlv!` (`InvalidData` on unknown bits);
+* `bool`; `Octets`/`OctetsOwned<N>` (`tw.str` / `element.str()`, `ConstraintError` beyond `N`);
+  `&str`/`String<N>` (`tw.utf8` / `element.utf8()`);
+* `Option<T>` (`maybe.rs`): `None` writes nothing, an empty element (tag not found) reads as `None`;
+* `Nullable<T>`: null ↔ TLV null, otherwise `T::nullable_to_tlv` / `T::nullable_from_tlv` (integers:
+  the top value of the type is reserved, `ConstraintError`);
+* a nested derived structure (struct / list datatype);
+* `Vec<T, N>` / `[T]` / `TLVArray<T>` (`vec.rs`, `slice.rs`, `container.rs`): `start_array`, every item
+  with the anonymous tag, `end_container` / `TLVArray::new` (an **empty element is accepted** and reads as
+  the empty array), `container().unwrap_or(empty)`, every item of `iter()` through `T::from_tlv`,
+  `ConstraintError` beyond `N`.
+
+A `Ty` is that layout as data; which schema a given `derive` expands to is **not** proved — it is
+checked by correspondence on the fixed list of real structures in `named`.
 -/
 namespace TlvSchema
 open Tlv
 
-inductive FTy | u8 | u16 | u32 | u64 | bool
+/-- which values of the wire integer the Rust field type accepts -/
+inductive Dom
+  | any                      -- `uN`
+  | nonzero                  -- `NonZeroUN`
+  | oneOf (vals : List Nat)  -- unit enum
+  | mask (m : Nat)           -- bit flags: only bits of `m`
 deriving DecidableEq, Repr, Inhabited
 
-def FTy.max : FTy → Nat
-  | .u8 => 0xff | .u16 => 0xffff | .u32 => 0xffffffff | .u64 => 0xffffffffffffffff | .bool => 1
+def Dom.accepts : Dom → Nat → Bool
+  | .any, _ => true
+  | .nonzero, n => n != 0
+  | .oneOf vs, n => vs.contains n
+  | .mask m, n => (n &&& m) == n
 
-structure Field where
-  tag : Nat
-  ty : FTy
-  opt : Bool
-  nullable : Bool
-deriving DecidableEq, Repr, Inhabited
+mutual
+/-- a value of a `Ty` -/
+inductive Val
+  | num (n : Nat) | bool (b : Bool) | bytes (b : Bytes) | obj (ss : Slots) | arr (vs : Vals)
+  /-- a raw `TLVElement` field, as the tree it decodes to (anonymous tag) -/
+  | raw (v : Value)
+  /-- the empty `TLVElement` (field not present) -/
+  | empty
+  /-- variant `i` of an enum with payload -/
+  | variant (i : Nat) (v : Val)
+deriving DecidableEq
+/-- a field value: `Option::None`, `Nullable` null, a value -/
+inductive Slot
+  | absent | null | val (v : Val)
+deriving DecidableEq
+inductive Slots
+  | nil | cons (s : Slot) (r : Slots)
+deriving DecidableEq
+inductive Vals
+  | nil | cons (v : Val) (r : Vals)
+deriving DecidableEq
+end
 
-/-- a field value: `Option::None`, `Nullable` null, an integer, a boolean -/
-inductive Slot | absent | null | num (n : Nat) | bool (b : Bool)
-deriving DecidableEq, Repr, Inhabited
+mutual
+inductive Ty
+  | uint (w : Width) (d : Dom)
+  | bool
+  | octets (lo : Nat) (cap : Option Nat)
+  | utf8 (cap : Option Nat)
+  | struct (k : Kind) (fs : Fields)
+  | array (cap : Option Nat) (elem : Ty)
+  /-- a raw `TLVElement<'a>` field: re-encoded under the field's tag, decoded lazily -/
+  | any
+  /-- an enum with one unnamed field per variant (`datatype = "struct"`): a structure holding exactly
+  the variant's payload under the variant's context tag -/
+  | choice (alts : Alts)
+/-- the fields of a derived structure, in declaration order: context tag, `Option`, `Nullable`, type -/
+inductive Fields
+  | nil
+  | cons (tag : Nat) (opt nullable : Bool) (ty : Ty) (rest : Fields)
+  /-- a `Skippable<T>` field: always written; a missing element reads as `T::default()` = `dflt` -/
+  | consSkip (tag : Nat) (ty : Ty) (dflt : Val) (rest : Fields)
+/-- the variants of an enum with payload: context tag and payload type -/
+inductive Alts
+  | nil
+  | cons (tag : Nat) (ty : Ty) (rest : Alts)
+end
 
-/-- a field, or one nested derived structure (its fields flattened into the slot list) -/
-inductive Item
-  | field (f : Field)
-  | group (tag : Nat) (kind : Kind) (fs : List Field)
-deriving Repr, Inhabited
+def Vals.length : Vals → Nat
+  | .nil => 0
+  | .cons _ r => r.length + 1
 
-structure Schema where
-  kind : Kind
-  items : List Item
-deriving Repr, Inhabited
+/-- largest value of a `w`-byte unsigned integer (`uN::MAX`) -/
+def wmax (w : Width) : Nat := 2 ^ (8 * w.bytes) - 1
 
-/-- does the slot fit the field (the generator's / caller's precondition) -/
-def Field.admits (f : Field) : Slot → Bool
-  | .absent => f.opt
-  | .null => f.nullable
-  | .num n => f.ty != .bool && n ≤ f.ty.max && (!f.nullable || n != f.ty.max)
-  | .bool _ => f.ty == .bool
+/-- capacity of `OctetsOwned<N>` / `String<N>` / `Vec<T, N>` (`none`: borrowed, unbounded) -/
+def capOk (cap : Option Nat) (n : Nat) : Bool :=
+  match cap with
+  | none => true
+  | some c => n ≤ c
 
-/-- derived `to_tlv` of one field: zero or one element -/
-def encodeField (f : Field) : Slot → Option (List Value)
-  | .absent => if f.opt then some [] else none
-  | .null => if f.nullable then some [.leaf (.ctx f.tag) .null] else none
-  | .num n =>
-    if f.ty != .bool && n ≤ f.ty.max && (!f.nullable || n != f.ty.max) then
-      some [.leaf (.ctx f.tag) (if f.ty == .u8 then .uint .w1 n else Prim.mkUint n)]
+/-- the primitive `tw.u8` / `tw.u16|u32|u64` writes -/
+def uintPrim (w : Width) (n : Nat) : Prim := if w = .w1 then .uint .w1 n else Prim.mkUint n
+
+def _root_.Tlv.Value.tag : Value → Tag
+  | .leaf t _ => t
+  | .cont t _ _ => t
+
+/-- the same element under another tag (`elem.to_tlv(&tag, ..)`) -/
+def _root_.Tlv.Value.retag (t : Tag) : Value → Value
+  | .leaf _ p => .leaf t p
+  | .cont _ k cs => .cont t k cs
+
+def _root_.Tlv.Value.isNull : Value → Bool
+  | .leaf _ .null => true
+  | _ => false
+
+def tagWfb : Tag → Bool
+  | .anon => true
+  | .ctx n => decide (n < 2 ^ 8)
+  | .commonPrf16 n => decide (n < 2 ^ 16)
+  | .commonPrf32 n => decide (n < 2 ^ 32)
+  | .implPrf16 n => decide (n < 2 ^ 16)
+  | .implPrf32 n => decide (n < 2 ^ 32)
+  | .fullQual48 v p t => decide (v < 2 ^ 16) && decide (p < 2 ^ 16) && decide (t < 2 ^ 16)
+  | .fullQual64 v p t => decide (v < 2 ^ 16) && decide (p < 2 ^ 16) && decide (t < 2 ^ 32)
+
+def primWfb : Prim → Bool
+  | .sint w i => decide (-(2 ^ (8 * w.bytes - 1) : Nat) ≤ i) && decide (i < (2 ^ (8 * w.bytes - 1) : Nat))
+  | .uint w n => decide (n < 2 ^ (8 * w.bytes))
+  | .bool _ => true
+  | .f32 b => decide (b < 2 ^ 32)
+  | .f64 b => decide (b < 2 ^ 64)
+  | .utf8 w b => decide (b.length < 2 ^ (8 * w.bytes)) && validUtf8 b
+  | .str w b => decide (b.length < 2 ^ (8 * w.bytes))
+  | .null => true
+
+mutual
+/-- executable `Value.wf` -/
+def valueWfb : Value → Bool
+  | .leaf t p => tagWfb t && primWfb p
+  | .cont t _ cs => tagWfb t && valuesWfb cs
+def valuesWfb : Values → Bool
+  | .nil => true
+  | .cons v vs => valueWfb v && valuesWfb vs
+end
+
+/-- the `i`-th variant -/
+def Alts.get : Alts → Nat → Option (Nat × Ty)
+  | .nil, _ => none
+  | .cons tag ty _, 0 => some (tag, ty)
+  | .cons _ _ rest, i + 1 => rest.get i
+
+/-! ## derived `to_tlv`: `none` = the value does not inhabit the Rust type (or the writer refuses it) -/
+mutual
+/-- `T::to_tlv(tag)`; with `nl` the `T::nullable_to_tlv(tag)` of a `Nullable<T>` -/
+def encodeVal : Bool → Ty → Tag → Val → Option Value
+  | nl, .uint w d, t, .num n =>
+    if n ≤ wmax w && d.accepts n && (!nl || n != wmax w) then some (.leaf t (uintPrim w n)) else none
+  | _, .bool, t, .bool b => some (.leaf t (.bool b))
+  | _, .octets lo cap, t, .bytes b =>
+    if decide (lo ≤ b.length) && capOk cap b.length && decide (b.length < USIZE) then some (.leaf t (Prim.mkStr b)) else none
+  | _, .utf8 cap, t, .bytes b =>
+    if capOk cap b.length && decide (b.length < USIZE) && validUtf8 b then some (.leaf t (Prim.mkUtf8 b)) else none
+  | _, .struct k fs, t, .obj ss =>
+    match encodeFields fs ss with
+    | some vs => some (.cont t k (Values.ofList vs))
+    | none => none
+  | _, .array cap el, t, .arr vs =>
+    if capOk cap vs.length then
+      match encodeElems el vs with
+      | some xs => some (.cont t .array (Values.ofList xs))
+      | none => none
     else none
-  | .bool b => if f.ty == .bool then some [.leaf (.ctx f.tag) (.bool b)] else none
-
-def encodeFields : List Field → List Slot → Option (List Value × List Slot)
-  | [], ss => some ([], ss)
-  | _ :: _, [] => none
-  | f :: fs, s :: ss => do
-    let v ← encodeField f s
-    let (vs, rest) ← encodeFields fs ss
-    pure (v ++ vs, rest)
-
-def encodeItems : List Item → List Slot → Option (List Value × List Slot)
-  | [], ss => some ([], ss)
-  | .field f :: is, ss => do
-    let (v, r1) ← encodeFields [f] ss
-    let (vs, r2) ← encodeItems is r1
-    pure (v ++ vs, r2)
-  | .group tag kind fs :: is, ss => do
-    let (inner, r1) ← encodeFields fs ss
-    let (vs, r2) ← encodeItems is r1
-    pure (.cont (.ctx tag) kind (Values.ofList inner) :: vs, r2)
+  | nl, .any, t, .raw v =>
+    -- `TLVElement::to_tlv(tag)`; a `Nullable` raw element that is itself a TLV null would read back as null
+    if v.tag == .anon && valueWfb v && (!nl || !v.isNull) then some (v.retag t) else none
+  | _, .choice alts, t, .variant i v =>
+    match alts.get i with
+    | some (tag, ty) =>
+      match encodeVal false ty (.ctx tag) v with
+      | some x => some (.cont t .struct (.cons x .nil))
+      | none => none
+    | none => none
+  | _, _, _, _ => none
+/-- the fields of a structure, each under its context tag -/
+def encodeFields : Fields → Slots → Option (List Value)
+  | .nil, .nil => some []
+  | .cons tag o n ty rest, .cons s ss =>
+    match s with
+    | .absent => if o then encodeFields rest ss else none
+    | .null =>
+      if n then
+        match encodeFields rest ss with
+        | some r => some (.leaf (.ctx tag) .null :: r)
+        | none => none
+      else none
+    | .val v =>
+      match encodeVal n ty (.ctx tag) v with
+      | some x =>
+        match encodeFields rest ss with
+        | some r => some (x :: r)
+        | none => none
+      | none => none
+  | .consSkip tag ty _ rest, .cons s ss =>
+    match s with
+    | .val v =>
+      match encodeVal false ty (.ctx tag) v with
+      | some x =>
+        match encodeFields rest ss with
+        | some r => some (x :: r)
+        | none => none
+      | none => none
+    | _ => none
+  | _, _ => none
+/-- the items of an array, each under the anonymous tag -/
+def encodeElems : Ty → Vals → Option (List Value)
+  | _, .nil => some []
+  | el, .cons v r =>
+    match encodeVal false el .anon v with
+    | some x =>
+      match encodeElems el r with
+      | some xs => some (x :: xs)
+      | none => none
+    | none => none
+end
 
 /-- the value tree the derived `to_tlv(&TLVTag::Anonymous, ..)` writes -/
-def toValue (s : Schema) (slots : List Slot) : Option Value :=
-  match encodeItems s.items slots with
-  | some (vs, []) => some (.cont .anon s.kind (Values.ofList vs))
-  | _ => none
+def toValue (ty : Ty) (v : Val) : Option Value := encodeVal false ty .anon v
 
-def encodeStruct (s : Schema) (slots : List Slot) : Option Bytes := (toValue s slots).map encode
+def encodeStruct (ty : Ty) (v : Val) : Option Bytes := (toValue ty v).map encode
+
+/-! ## derived `from_tlv` -/
 
 /-- `element.struct()/array()/list()` as the derive calls it -/
 def enter (k : Kind) (bs : Bytes) : Res Bytes :=
@@ -92,89 +243,359 @@ def enter (k : Kind) (bs : Bytes) : Res Bytes :=
   | .array => arrayOf bs
   | .list => listOf bs
 
-/-- `uN::from_tlv` -/
-def numOf (ty : FTy) (e : Bytes) : Res Slot :=
-  match ty with
-  | .u8 => do let n ← u8 e; pure (.num n)
-  | .u16 => do let n ← u16 e; pure (.num n)
-  | .u32 => do let n ← u32 e; pure (.num n)
-  | .u64 => do let n ← u64 e; pure (.num n)
-  | .bool => do let b ← boolOf e; pure (.bool b)
+/-- `element.uN()` -/
+def readUint (w : Width) (e : Bytes) : Res Nat :=
+  match w with
+  | .w1 => u8 e
+  | .w2 => u16 e
+  | .w4 => u32 e
+  | .w8 => u64 e
 
-/-- `T::from_tlv(&seq.find_ctx(tag)?)` for `T` = `uN`/`bool`, `Option<T>`, `Nullable<T>`, `Option<Nullable<T>>` -/
-def decodeField (seq : Bytes) (f : Field) : Res Slot := do
-  let e ← findCtx seq f.tag
-  if f.opt && e.isEmpty then pure .absent
-  else if f.nullable then do
-    let c ← control e
-    if c.vt = .null then pure .null else do
-      let s ← numOf f.ty e
-      -- `nullable_from_tlv`: the top value of the type is reserved (ConstraintError)
-      match s with
-      | .num n => if n = f.ty.max then .err .invalid else pure s
-      | _ => pure s
-  else numOf f.ty e
+/-- `TLVContainerIter`: every item of `seq.iter()` through `T::from_tlv`, stopping at the first error -/
+def decodeSeqWith (f : Bytes → Res Val) : List (Res Bytes) → Res Vals
+  | [] => pure .nil
+  | r :: rest => do
+    let e ← r
+    let v ← f e
+    let vs ← decodeSeqWith f rest
+    pure (.cons v vs)
 
-def decodeFields (seq : Bytes) : List Field → Res (List Slot)
-  | [] => pure []
-  | f :: fs => do
-    let s ← decodeField seq f
-    let r ← decodeFields seq fs
-    pure (s :: r)
+/-- `TLVArray::new(element)`: an empty element is accepted, otherwise it must be an array -/
+def arrayNew (e : Bytes) : Res Unit :=
+  if e.isEmpty then pure () else do
+    let _ ← arrayOf e
+    pure ()
 
-def decodeItems (seq : Bytes) : List Item → Res (List Slot)
-  | [] => pure []
-  | .field f :: is => do
-    let s ← decodeField seq f
-    let r ← decodeItems seq is
-    pure (s :: r)
-  | .group tag kind fs :: is => do
+/-- `TLVContainer::iter`: `self.element.container().unwrap_or(TLVSequence(&[]))` -/
+def containerOrEmpty (e : Bytes) : Res Bytes :=
+  match containerOf e with
+  | .ok s => .ok s
+  | .err _ => .ok []
+  | .panic p => .panic p
+
+mutual
+/-- `T::from_tlv(element)`; with `nl` the `T::nullable_from_tlv(element)` of a `Nullable<T>` -/
+def decodeVal : Bool → Ty → Bytes → Res Val
+  | nl, .uint w d, e => do
+    let n ← readUint w e
+    if nl && n == wmax w then .err .invalid        -- ConstraintError
+    else if d.accepts n then pure (.num n) else .err .invalid
+  | _, .bool, e => do
+    let b ← boolOf e
+    pure (.bool b)
+  | _, .octets lo cap, e => do
+    let s ← strOf e
+    if decide (lo ≤ s.length) && capOk cap s.length then pure (.bytes s) else .err .invalid
+  | _, .utf8 cap, e => do
+    let s ← utf8Of e
+    if capOk cap s.length then pure (.bytes s) else .err .invalid
+  | _, .struct k fs, e => do
+    let seq ← enter k e
+    let ss ← decodeFields seq fs
+    pure (.obj ss)
+  | _, .array cap el, e => do
+    arrayNew e
+    let seq ← containerOrEmpty e
+    let vs ← decodeSeqWith (decodeVal false el) (elements seq)
+    if capOk cap vs.length then pure (.arr vs) else .err .invalid
+  | _, .any, e =>
+    -- `TLVElement::from_tlv` is a clone; the element is observed through the tree decoder
+    -- (`tag()`, `value()`, `container()?.iter()`, as stream w does) under the anonymous tag
+    if e.isEmpty then pure .empty else do
+      let v ← decodeTree e.length e
+      pure (.raw (v.retag .anon))
+  | _, .choice alts, e => do
+    -- `element.r#struct()?.iter().next().ok_or(TLVTypeMismatch)??`, `try_ctx()?.ok_or(TLVTypeMismatch)?`
+    let seq ← structOf e
+    match (iterNext seq).1 with
+    | none => .err .mismatch
+    | some r => do
+      let el ← r
+      let o ← tryCtx el
+      let tag ← okOr o .mismatch
+      decodeAlts alts 0 tag el
+/-- `match tag { #(#tags => Self::#variant(T::from_tlv(&element)?),)* _ => Err(Invalid) }` -/
+def decodeAlts : Alts → Nat → Nat → Bytes → Res Val
+  | .nil, _, _, _ => .err .invalid
+  | .cons tg ty rest, i, tag, el =>
+    if tg = tag then do
+      let v ← decodeVal false ty el
+      pure (.variant i v)
+    else decodeAlts rest (i + 1) tag el
+/-- per field `T::from_tlv(&seq.find_ctx(tag)?)` for `T`, `Option<T>`, `Nullable<T>`, `Option<Nullable<T>>` -/
+def decodeFields (seq : Bytes) : Fields → Res Slots
+  | .nil => pure .nil
+  | .cons tag o n ty rest => do
     let e ← findCtx seq tag
-    let inner ← enter kind e
-    let s ← decodeFields inner fs
-    let r ← decodeItems seq is
-    pure (s ++ r)
+    let s ←
+      (if o && e.isEmpty then pure Slot.absent
+       else if n then do
+         let c ← control e
+         if c.vt = .null then pure Slot.null else do
+           let v ← decodeVal true ty e
+           pure (Slot.val v)
+       else do
+         let v ← decodeVal false ty e
+         pure (Slot.val v))
+    let r ← decodeFields seq rest
+    pure (.cons s r)
+  | .consSkip tag ty dflt rest => do
+    let e ← findCtx seq tag
+    let s ← (if e.isEmpty then pure (Slot.val dflt) else do
+      let v ← decodeVal false ty e
+      pure (Slot.val v))
+    let r ← decodeFields seq rest
+    pure (.cons s r)
+end
 
 /-- the derived `from_tlv` -/
-def decodeStruct (s : Schema) (bs : Bytes) : Res (List Slot) := do
-  let seq ← enter s.kind bs
-  decodeItems seq s.items
+def decodeStruct (ty : Ty) (bs : Bytes) : Res Val := decodeVal false ty bs
 
-/-! ### the real structures of stream `s` (hand-read from the Rust declarations) -/
-def o (tag : Nat) (ty : FTy) : Item := .field ⟨tag, ty, true, false⟩
-def r (tag : Nat) (ty : FTy) : Item := .field ⟨tag, ty, false, false⟩
+/-! ## the real structures of stream `s` (hand-read from the Rust declarations) -/
 
-def named : String → Option Schema
-  | "AttrPath" => some ⟨.list, [o 0 .bool, o 1 .u64, o 2 .u16, o 3 .u32, o 4 .u32, .field ⟨5, .u16, true, true⟩]⟩
-  | "CmdPath" => some ⟨.list, [o 0 .u16, o 1 .u32, o 2 .u32]⟩
-  | "EventPath" => some ⟨.list, [o 0 .u64, o 1 .u16, o 2 .u32, o 3 .u32, o 4 .bool]⟩
-  | "ClusterPath" => some ⟨.list, [o 0 .u64, r 1 .u16, r 2 .u32]⟩
-  | "EventFilter" => some ⟨.struct, [o 0 .u64, o 1 .u64]⟩
-  | "TimedReq" => some ⟨.struct, [r 0 .u16, o Consts.imRevisionTag .u8]⟩
-  | "Target" => some ⟨.struct, [o 0 .u32, o 1 .u16, o 2 .u32]⟩
-  | "DataVersionFilter" => some ⟨.struct, [.group 0 .list [⟨0, .u64, true, false⟩, ⟨1, .u16, false, false⟩, ⟨2, .u32, false, false⟩], r 1 .u32]⟩
+def Fields.ofList : List (Nat × Bool × Bool × Ty) → Fields
+  | [] => .nil
+  | (tag, o, n, ty) :: r => .cons tag o n ty (Fields.ofList r)
+
+def tU8 : Ty := .uint .w1 .any
+def tU16 : Ty := .uint .w2 .any
+def tU32 : Ty := .uint .w4 .any
+def tU64 : Ty := .uint .w8 .any
+def tOct : Ty := .octets 0 none
+/-- `CryptoSensitive<N>`: exactly `N` bytes -/
+def tKey (n : Nat) : Ty := .octets n (some n)
+/-- optional field -/
+def o (tag : Nat) (ty : Ty) : Nat × Bool × Bool × Ty := (tag, true, false, ty)
+/-- required field -/
+def r (tag : Nat) (ty : Ty) : Nat × Bool × Bool × Ty := (tag, false, false, ty)
+def st (fs : List (Nat × Bool × Bool × Ty)) : Ty := .struct .struct (Fields.ofList fs)
+def ls (fs : List (Nat × Bool × Bool × Ty)) : Ty := .struct .list (Fields.ofList fs)
+
+def clusterPath : Ty := ls [o 0 tU64, r 1 tU16, r 2 tU32]
+def target : Ty := st [o 0 tU32, o 1 tU16, o 2 tU32]
+/-- `sc::SessionParameters` (`start = 1`) -/
+def sessionParameters : Ty := st [o 1 tU32, o 2 tU32, o 3 tU16, o 4 tU16, o 5 tU16, o 6 tU32, o 7 tU16]
+/-- `IMStatusCode` (`FromPrimitive`, written with `tw.u16`) -/
+def imStatusCode : Ty := .uint .w2 (.oneOf [0, 1, 0x7d, 0x7e, 0x7f, 0x80, 0x81, 0x85, 0x86, 0x87, 0x88, 0x89, 0x8b,
+  0x8c, 0x8d, 0x8f, 0x92, 0x94, 0x9b, 0x9c, 0x9d, 0xc3, 0xc5, 0xc6, 0xc7, 0xc8, 0xc9, 0xca, 0xcb, 0xcc, 0xcd, 0xce,
+  0xcf, 0xd0, 0xd1])
+
+def attrPath : Ty := ls [o 0 .bool, o 1 tU64, o 2 tU16, o 3 tU32, o 4 tU32, (5, true, true, tU16)]
+def cmdPath : Ty := ls [o 0 tU16, o 1 tU32, o 2 tU32]
+def status : Ty := st [r 0 imStatusCode, o 1 tU16]
+/-- `AttrStatus` / `AttrData` (raw `TLVElement` payload) / `AttrResp` (enum with payload) -/
+def attrStatus : Ty := st [r 0 attrPath, r 1 status]
+def attrData : Ty := st [o 0 tU32, r 1 attrPath, r 2 .any]
+def attrResp : Ty := .choice (.cons 0 attrStatus (.cons 1 attrData .nil))
+def cmdStatus : Ty := st [r 0 cmdPath, r 1 status, o 2 tU16]
+def cmdData : Ty := st [r 0 cmdPath, r 1 .any, o 2 tU16]
+def cmdResp : Ty := .choice (.cons 0 cmdData (.cons 1 cmdStatus .nil))
+
+def aclEntry : Ty := st [
+  r 1 (.uint .w1 (.oneOf [1, 2, 3, 4, 5])),                                  -- Privilege ↔ AccessControlEntryPrivilegeEnum
+  r 2 (.uint .w1 (.oneOf [1, 2, 3])),                                        -- AuthMode
+  (3, false, true, .array (some Consts.aclMaxSubjects) tU64),                -- Nullable<Vec<u64, N>>
+  (4, false, true, .array (some Consts.aclMaxTargets) target),               -- Nullable<Vec<Target, N>>
+  o 5 (.uint .w1 (.oneOf [0, 1])),                                           -- Option<AccessControlAuxiliaryTypeEnum>
+  o Consts.fabricIndexTag (.uint .w1 .nonzero)]                              -- Option<NonZeroU8>
+
+/-- `fabric::Groups` (feature `groups`) -/
+def groups : Ty := st [
+  r 0 (.array (some Consts.groupMaxKeys) (st [r 0 tU16, r 1 tU8,                       -- GroupKeySet
+    r 2 (.array (some Consts.groupMaxEpochKeys) (st [r 0 (tKey Consts.aeadKeyLen), r 1 tU64]))])),
+  r 1 (.array (some Consts.groupMaxGroups) (st [r 0 tU16, r 1 tU16])),                  -- GroupKeyMapping
+  r 2 (.array (some Consts.groupMaxGroups) (st [r 0 tU16,                               -- GroupEndpointMapping
+    r 1 (.array (some Consts.groupMaxEndpoints) tU16), r 2 (.utf8 (some Consts.groupNameLen)), o 3 .bool,
+    o 4 (.uint .w1 (.oneOf [0, 1]))]))]
+
+/-- `Groups::default()`: three empty vectors -/
+def groupsDefault : Val :=
+  .obj (.cons (.val (.arr .nil)) (.cons (.val (.arr .nil)) (.cons (.val (.arr .nil)) .nil)))
+
+/-- a `Vec<u8, N>` (written as a TLV array of 8-bit integers) -/
+def byteVec (n : Nat) : Ty := .array (some n) tU8
+
+/-- the persisted `fabric::Fabric` blob -/
+def fabric : Ty := .struct .struct (
+  .cons 0 false false (.uint .w1 .nonzero) (
+  .cons 1 false false tU64 (
+  .cons 2 false false tU64 (
+  .cons 3 false false tU16 (
+  .cons 4 false false tU64 (
+  .cons 5 false false (tKey Consts.ecScalarLen) (
+  .cons 6 false false (byteVec Consts.certMaxTlvLen) (
+  .cons 7 false false (byteVec Consts.certMaxTlvLen) (
+  .cons 8 false false .bool (
+  .cons 9 false false (byteVec Consts.certMaxTlvLen) (
+  .cons 10 false false (st [r 0 (tKey Consts.aeadKeyLen), r 1 (tKey Consts.aeadKeyLen)]) (
+  .cons 11 false false (.utf8 (some 32)) (
+  .cons 12 false false (.array (some Consts.aclMaxEntries) aclEntry) (
+  .consSkip 13 groups groupsDefault (
+  .cons 14 false false (byteVec Consts.vvsLen) .nil)))))))))))))))
+
+def named : String → Option Ty
+  | "AttrPath" => some attrPath
+  | "CmdPath" => some cmdPath
+  | "EventPath" => some (ls [o 0 tU64, o 1 tU16, o 2 tU32, o 3 tU32, o 4 .bool])
+  | "ClusterPath" => some clusterPath
+  | "EventFilter" => some (st [o 0 tU64, o 1 tU64])
+  | "TimedReq" => some (st [r 0 tU16, o Consts.imRevisionTag tU8])
+  | "Target" => some target
+  | "DataVersionFilter" => some (st [r 0 clusterPath, r 1 tU32])
+  | "Status" => some status
+  | "AttrStatus" => some attrStatus
+  | "AttrData" => some attrData
+  | "AttrResp" => some attrResp
+  | "CmdStatus" => some cmdStatus
+  | "CmdData" => some cmdData
+  | "CmdResp" => some cmdResp
+  | "StatusResp" => some (st [r 0 imStatusCode, o Consts.imRevisionTag tU8])
+  | "SessionParameters" => some sessionParameters
+  | "PBKDFParamReq" => some (st [r 1 tOct, r 2 tU16, r 3 tU16, r 4 .bool, o 5 sessionParameters])
+  | "PBKDFParamResp" => some (st [r 1 tOct, r 2 tOct, r 3 tU16, o 4 (st [r 1 tU32, r 2 tOct]), o 5 sessionParameters])
+  | "Pake1" => some (st [r 1 tOct])
+  | "Pake2" => some (st [r 1 tOct, r 2 tOct])
+  | "Pake3" => some (st [r 1 tOct])
+  | "Sigma1Req" => some (st [r 1 tOct, r 2 tU16, r 3 tOct, r 4 tOct, o 5 sessionParameters, o 6 tOct, o 7 tOct])
+  | "Sigma2Resp" => some (st [r 1 tOct, r 2 tU16, r 3 tOct, r 4 tOct])
+  | "TBEData2Decrypt" => some (st [r 1 tOct, o 2 tOct, r 3 tOct, r 4 tOct])
+  | "Sigma3Decrypt" => some (st [r 1 tOct, o 2 tOct, r 3 tOct])
+  | "Sigma2ResumeMsg" => some (st [r 1 tOct, r 2 tOct, r 3 tU16, o 4 sessionParameters])
+  | "AclEntry" => some aclEntry
+  | "Fabric" => some fabric
   | _ => none
 
-def parseSlot (s : String) : Option Slot :=
-  if s = "-" then some .absent else if s = "n" then some .null
-  else if s = "T" then some (.bool true) else if s = "F" then some (.bool false)
-  else s.toNat?.map .num
+/-! ## text form of values (line protocol)
 
+`-` absent, `n` null, a decimal number, `T`/`F`, `x<hex>` an octet / UTF-8 string, `{ slot … }` a
+structure, `[ value … ]` an array. -/
+
+def hexDigit (n : Nat) : Char := if n < 10 then Char.ofNat (48 + n) else Char.ofNat (87 + n)
+def hexOf (b : Bytes) : String :=
+  String.ofList (b.foldr (fun x acc => hexDigit (x.toNat / 16) :: hexDigit (x.toNat % 16) :: acc) [])
+def hexVal (c : Char) : Option Nat :=
+  if '0' ≤ c ∧ c ≤ '9' then some (c.toNat - 48)
+  else if 'a' ≤ c ∧ c ≤ 'f' then some (c.toNat - 87)
+  else none
+def unhexL : List Char → Option Bytes
+  | [] => some []
+  | [_] => none
+  | a :: b :: rest => do
+    let x ← hexVal a
+    let y ← hexVal b
+    let t ← unhexL rest
+    pure (UInt8.ofNat (x * 16 + y) :: t)
+
+mutual
+def valStr : Val → String
+  | .num n => toString n
+  | .bool true => "T"
+  | .bool false => "F"
+  | .bytes b => "x" ++ hexOf b
+  | .obj ss => "{" ++ slotsStr ss ++ " }"
+  | .arr vs => "[" ++ valsStr vs ++ " ]"
+  | .raw v => "r:" ++ hexOf (encode v)
+  | .empty => "_"
+  | .variant i v => "( " ++ toString i ++ " " ++ valStr v ++ " )"
 def slotStr : Slot → String
-  | .absent => "-" | .null => "n" | .num n => toString n | .bool true => "T" | .bool false => "F"
+  | .absent => "-"
+  | .null => "n"
+  | .val v => valStr v
+def slotsStr : Slots → String
+  | .nil => ""
+  | .cons s r => " " ++ slotStr s ++ slotsStr r
+def valsStr : Vals → String
+  | .nil => ""
+  | .cons v r => " " ++ valStr v ++ valsStr r
+end
+
+mutual
+/-- one slot from the token list -/
+def parseSlotF : Nat → List String → Option (Slot × List String)
+  | 0, _ => none
+  | _ + 1, [] => none
+  | f + 1, tok :: rest =>
+    if tok = "-" then some (.absent, rest)
+    else if tok = "n" then some (.null, rest)
+    else if tok = "T" then some (.val (.bool true), rest)
+    else if tok = "F" then some (.val (.bool false), rest)
+    else if tok = "{" then
+      match parseSlotsF f rest with
+      | some (ss, rest') => some (.val (.obj ss), rest')
+      | none => none
+    else if tok = "[" then
+      match parseValsF f rest with
+      | some (vs, rest') => some (.val (.arr vs), rest')
+      | none => none
+    else if tok = "_" then some (.val .empty, rest)
+    else if tok = "(" then
+      match rest with
+      | itok :: rest1 =>
+        match itok.toNat?, parseSlotF f rest1 with
+        | some i, some (.val v, ")" :: rest2) => some (.val (.variant i v), rest2)
+        | _, _ => none
+      | [] => none
+    else if tok.startsWith "r:" then
+      match unhexL (tok.toList.drop 2) with
+      | some b =>
+        match decodeTree b.length b with
+        | .ok v => some (.val (.raw v), rest)
+        | _ => none
+      | none => none
+    else if tok.startsWith "x" then
+      match unhexL (tok.toList.drop 1) with
+      | some b => some (.val (.bytes b), rest)
+      | none => none
+    else
+      match tok.toNat? with
+      | some n => some (.val (.num n), rest)
+      | none => none
+/-- slots up to the closing `}` -/
+def parseSlotsF : Nat → List String → Option (Slots × List String)
+  | 0, _ => none
+  | _ + 1, [] => none
+  | f + 1, tok :: rest =>
+    if tok = "}" then some (.nil, rest)
+    else
+      match parseSlotF f (tok :: rest) with
+      | some (s, rest') =>
+        match parseSlotsF f rest' with
+        | some (ss, rest'') => some (.cons s ss, rest'')
+        | none => none
+      | none => none
+/-- values up to the closing `]` -/
+def parseValsF : Nat → List String → Option (Vals × List String)
+  | 0, _ => none
+  | _ + 1, [] => none
+  | f + 1, tok :: rest =>
+    if tok = "]" then some (.nil, rest)
+    else
+      match parseSlotF f (tok :: rest) with
+      | some (.val v, rest') =>
+        match parseValsF f rest' with
+        | some (vs, rest'') => some (.cons v vs, rest'')
+        | none => none
+      | _ => none
+end
+
+/-- a whole value (`{ … }`) from the tokens of an op line -/
+def parseVal (toks : List String) : Option Val :=
+  match parseSlotF (2 * toks.length + 2) toks with
+  | some (.val v, []) => some v
+  | _ => none
 
 def encodeNamed (name : String) (args : List String) : Option Bytes := do
-  let s ← named name
-  let slots ← args.mapM parseSlot
-  encodeStruct s slots
+  let ty ← named name
+  let v ← parseVal args
+  encodeStruct ty v
 
-/-- `none`: unknown structure; `some none`: the model rejects; `some (some slots)` -/
-def decodeNamed (name : String) (bs : Bytes) : Option (Option (List String)) :=
+/-- `none`: unknown structure; `some none`: the model rejects; `some (some text)` -/
+def decodeNamed (name : String) (bs : Bytes) : Option (Option String) :=
   match named name with
   | none => none
-  | some s =>
-    match decodeStruct s bs with
-    | .ok slots => some (some (slots.map slotStr))
+  | some ty =>
+    match decodeStruct ty bs with
+    | .ok v => some (some (valStr v))
     | _ => some none
 
 end TlvSchema
